@@ -63,7 +63,7 @@ def _pair(job):
 
 
 PROBE_N = (257, 258, 259, 300, 301)
-PROBE_S = (1, 4, 43, 44, 255, 256, 257, 260, 299, 300)
+PROBE_S = (1, 2, 3, 4, 5, 43, 44, 255, 256, 257, 260, 299, 300)
 
 
 def probe_pairs():
